@@ -1283,7 +1283,7 @@ PyObject * matrix_elem_max(PyObject *self, PyObject *args, PyObject *kwrds)
   int_t m = ( !a_is_number ? X_NROWS(A) : (!b_is_number ? X_NROWS(B) : 1));
   int_t n = ( !a_is_number ? X_NCOLS(A) : (!b_is_number ? X_NCOLS(B) : 1));
 
-  if ((Matrix_Check(A) || a_is_number) || (Matrix_Check(B) || b_is_number)) {
+  if (!(SpMatrix_Check(A) && SpMatrix_Check(B) && a_is_number == b_is_number)) {
 
     int freeA = SpMatrix_Check(A) && (SP_LGT(A) > 1);
     int freeB = SpMatrix_Check(B) && (SP_LGT(B) > 1);
@@ -1462,7 +1462,7 @@ PyObject * matrix_elem_min(PyObject *self, PyObject *args, PyObject *kwrds)
   int_t m = ( !a_is_number ? X_NROWS(A) : (!b_is_number ? X_NROWS(B) : 1));
   int_t n = ( !a_is_number ? X_NCOLS(A) : (!b_is_number ? X_NCOLS(B) : 1));
 
-  if ((Matrix_Check(A) || a_is_number) || (Matrix_Check(B) || b_is_number)) {
+  if (!(SpMatrix_Check(A) && SpMatrix_Check(B) && a_is_number == b_is_number)) {
 
     int freeA = SpMatrix_Check(A) && (SP_LGT(A) > 1);
     int freeB = SpMatrix_Check(B) && (SP_LGT(B) > 1);
